@@ -110,6 +110,14 @@ fn main() {
                 }
             }
         }
+        // a key that arrives twice (same or another stake): `register_by_entry` refuses the second arrival whatever the stake
+        if sink.wanted() {
+            let mut entries = base.clone();
+            let d = base[rng.below(n as u64) as usize];
+            entries.push((d.0, if rng.bool() { d.1 } else { d.1 ^ 1 }));
+            rng.shuffle(&mut entries);
+            sink.case("stm-duplicate-key", &req(&entries), &stm_path(&entries, &params));
+        } else { sink.skip(); }
     }
 
     // ---- the common entry point: SignerBuilder on fixtures with certified (KES) signers -------
